@@ -164,6 +164,7 @@ partial def encCell : Cell → Json
   | .rhs i => Json.arr #["rhs", Json.num (JsonNumber.fromNat i)]
   | .op a b => Json.arr #["op", encCell a, encCell b]
   | .red cs => Json.arr #["red", Json.arr (cs.map encCell).toArray]
+  | .redp q cs => Json.arr ((#[Json.str "redp"] : Array Json) ++ (encRat q).toArray ++ #[Json.arr (cs.map encCell).toArray])
   | .scan cs => Json.arr #["scan", Json.arr (cs.map encCell).toArray]
   | .sub a b => Json.arr #["sub", encCell a, encCell b]
   | .lin a b w => Json.arr ((#[Json.str "lin", encCell a, encCell b] : Array Json) ++ (encRat w).toArray)
